@@ -26,7 +26,7 @@ func drawContainer(rt *rapid.T) lang.Value {
 		}
 		return out
 	case 1:
-		rs := rapid.SliceOfN(rapid.SampledFrom([]rune("abcAB 09é狐犬ß😀\n")), 0, 7).Draw(rt, "runes")
+		rs := rapid.SliceOfN(rapid.SampledFrom([]rune("abcAB 09é狐犬ß😀\n\ufffd\r")), 0, 7).Draw(rt, "runes")
 		return lang.Str(string(rs))
 	case 2:
 		n := rapid.IntRange(0, 5).Draw(rt, "hlen")
